@@ -11,6 +11,12 @@ family scc*   ops:  e <u> <v>        add an edge to the pending edge list
                     run              build StaticGraph from the pending edges (then forget them) and analyse it
                     gm <n> <mask>    pending := { u->v | bit u*n+v of mask }, then `run`
                     fresh            replace both objects by new ones (Tarjan::new(), PathBasedScc::new())
+                    rep <N> <n> <mask>   like `gm <n> <mask>`, but the graph is analysed N times in a row by the same
+                                     objects; the first N-1 ("silent") runs are only summarised:
+                                       D k S silent=<N-1> hash=<H>     H = chained hash of the fingerprints of the
+                                     silent runs (canonical Tarjan partition, canonical PathBasedScc partition,
+                                     cycle_check answer, number of usize::MAX labels of each); the N-th run is
+                                     observed in full like any other run
               otherwise the SAME Tarjan and PathBasedScc objects are used for every run of a case.
               obs per run k:   D k n=<nodes>
                                D k T <canonical partition>   F k T <raw labels>      (Tarjan)
@@ -65,6 +71,19 @@ def maskEdges (n mask : Nat) : List (Nat × Nat) :=
   (List.range n).flatMap fun u => (List.range n).filterMap fun v =>
     if mask.testBit (u * n + v) then some (u, v) else none
 
+/-! ### long histories (`rep`) -/
+
+def fpMod : Nat := 2305843009213693951
+
+/-- fingerprint of one run: both canonical partitions, the cycle answer, the number of unassigned labels -/
+def fingerprint (canT canG : List Nat) (cyc : Bool) (maxT maxG : Nat) : Nat :=
+  (canT ++ [9999] ++ canG ++ [9999, if cyc then 1 else 0, maxT, maxG]).foldl (fun h x => (h * 31 + x + 1) % fpMod) 7
+
+/-- chained hash of `cnt` runs that all have fingerprint `fp` -/
+def silentHash (fp cnt : Nat) : Nat := (List.range cnt).foldl (fun h _ => (h * 1000003 + fp) % fpMod) 0
+
+def countMax (a : Array Nat) : Nat := (a.toList.filter (· == Csr.maxU)).length
+
 /-! ### family scc -/
 
 structure SccStats where
@@ -74,6 +93,8 @@ structure SccStats where
   sccs : Nat := 0
   cyclic : Nat := 0
   reused : Nat := 0
+  total : Nat := 0        -- runs of the history including silent repetitions
+  maxRep : Nat := 0
   nontriv : Bool := false
 
 def renderLabels (k : Nat) (tag : String) (r : Option (Array Nat)) : List String :=
@@ -108,7 +129,11 @@ def handleScc (c : Case) : CaseOut := Id.run do
   let mut stuck := false
   for l in c.ops do
     let mut doRun := false
+    let mut reps : Option Nat := none
     match words l with
+    | ["rep", cnt, a, b] =>
+      if parseNat! cnt == 0 then return { model := out, verdict := .skip s!"rep 0 in '{l}'" }
+      pending := maskEdges (parseNat! a) (parseNat! b); doRun := true; reps := some (parseNat! cnt)
     | ["e", a, b] => pending := pending ++ [(parseNat! a, parseNat! b)]
     | ["run"] => doRun := true
     | ["fresh"] => ts := Tarjan.State.fresh; gs := Gabow.State.fresh
@@ -120,15 +145,30 @@ def handleScc (c : Case) : CaseOut := Id.run do
       -- model
       let g := Csr.ofEdges es
       let n := Csr.numNodes g
-      out := out.push s!"D {k} n={n}"
       if !Csr.wfB g then stuck := true
-      match Tarjan.run ts g with
+      -- The model analyses the graph ONCE, also for `rep N`: by `Tbx.Props.C16.tarjan_rerun_eq_fresh` /
+      -- `gabow_rerun_eq_fresh` (and `tarjan_history_eq_fresh` / `gabow_history_eq_fresh` for whole histories)
+      -- every one of the N runs returns the labels AND leaves the object state of a run on a fresh object,
+      -- so run 1..N have the same result and the state after N runs is the state after one; `cycle_check`
+      -- is a pure function.  The N-1 silent fingerprints are therefore N-1 copies of this run's fingerprint.
+      let rT := Tarjan.run ts g
+      let rG := Gabow.run gs g
+      let rC := CycleCheck.cycleCheck g
+      match reps with
+      | some cnt =>
+        let fp := fingerprint (match rT with | some (_, a) => canonOf a.toList | none => [])
+          (match rG with | some (_, a) => canonOf a.toList | none => []) (rC.getD false)
+          (match rT with | some (_, a) => countMax a | none => 0) (match rG with | some (_, a) => countMax a | none => 0)
+        out := out.push s!"D {k} S silent={cnt - 1} hash={silentHash fp (cnt - 1)}"
+      | none => pure ()
+      out := out.push s!"D {k} n={n}"
+      match rT with
       | some (ts', a) => ts := ts'; out := out ++ (renderLabels k "T" (some a)).toArray
       | none => stuck := true; out := out ++ (renderLabels k "T" none).toArray
-      match Gabow.run gs g with
+      match rG with
       | some (gs', a) => gs := gs'; out := out ++ (renderLabels k "G" (some a)).toArray
       | none => stuck := true; out := out ++ (renderLabels k "G" none).toArray
-      match CycleCheck.cycleCheck g with
+      match rC with
       | some b => out := out.push s!"D {k} C {bit b}"
       | none => stuck := true; out := out.push s!"D {k} C STUCK"
       -- judge (Spec checkers on the implementation's lines only)
@@ -145,6 +185,17 @@ def handleScc (c : Case) : CaseOut := Id.run do
               let canon := specCanon rs ni
               let nscc := ((List.range ni).filter fun v => canon.getD v 0 == v).length
               let big := (List.range ni).any fun v => canon.getD v 0 != v
+              -- the silent repetitions: every one must have produced the Spec's partition and cycle answer
+              match reps with
+              | some cnt =>
+                let exp := s!"silent={cnt - 1} hash={silentHash (fingerprint canon canon (specCycle rs es) 0 0) (cnt - 1)}"
+                match findLine c.impl s!"D {k} S " with
+                | none => verdict := .fail s!"run {k}: no summary of the {cnt - 1} silent repetitions"
+                | some got =>
+                  if got != exp then
+                    verdict := .fail s!"run {k}: among the first {cnt - 1} of {cnt} consecutive runs on this graph (history run {stt.total + 1}..) at least one deviates from the SameSCC partition [{joinC canon}] / HasCycle={bit (specCycle rs es)} or leaves nodes unassigned: summary [{got}], expected [{exp}]"
+              | none => pure ()
+              stt := { stt with total := stt.total + (reps.getD 1), maxRep := Nat.max stt.maxRep (reps.getD 1) }
               stt := { stt with runs := stt.runs + 1, nodes := stt.nodes + ni, edges := stt.edges + es.length,
                                 sccs := stt.sccs + nscc, reused := stt.reused + (if k > 0 then 1 else 0),
                                 cyclic := stt.cyclic + (if specCycle rs es then 1 else 0),
@@ -165,7 +216,8 @@ def handleScc (c : Case) : CaseOut := Id.run do
   return { model := out, verdict := verdict,
            stats := [("nontrivial", bit stt.nontriv), ("runs", toString stt.runs), ("nodes", toString stt.nodes),
                      ("edges", toString stt.edges), ("sccs", toString stt.sccs), ("cyclic", toString stt.cyclic),
-                     ("reused_runs", toString stt.reused)] }
+                     ("reused_runs", toString stt.reused), ("history_runs", toString stt.total),
+                     ("history_ge_257", bit (stt.total ≥ 257)), ("history_ge_65537", bit (stt.total ≥ 65537))] }
 
 /-! ### family mst -/
 
